@@ -94,6 +94,38 @@ def eval_typed(args):
     return bad or False
 
 
+# ---------------------------------------------------------------- XSD 1.1: open content of a restriction against the open content of its base
+OC = {'absent': '', 'none': '<xs:openContent mode="none"/>', 'interleave-any': '<xs:openContent mode="interleave"><xs:any namespace="##any" processContents="skip"/></xs:openContent>',
+      'suffix-any': '<xs:openContent mode="suffix"><xs:any namespace="##any" processContents="skip"/></xs:openContent>',
+      'interleave-other': '<xs:openContent mode="interleave"><xs:any namespace="##other" processContents="skip"/></xs:openContent>',
+      'suffix-other': '<xs:openContent mode="suffix"><xs:any namespace="##other" processContents="skip"/></xs:openContent>'}
+DOC_OC = {'absent': '', 'interleave-any': '<xs:defaultOpenContent mode="interleave"><xs:any namespace="##any" processContents="skip"/></xs:defaultOpenContent>',
+          'suffix-other': '<xs:defaultOpenContent mode="suffix"><xs:any namespace="##other" processContents="skip"/></xs:defaultOpenContent>',
+          'interleave-other-empty': '<xs:defaultOpenContent mode="interleave" appliesToEmpty="true"><xs:any namespace="##other" processContents="skip"/></xs:defaultOpenContent>'}
+OC_WORDS = [''.join(t) for k in range(4) for t in itertools.product('fex', repeat=k)]       # f = foo (declared), e = extra (no namespace, undeclared), x = element of another namespace
+
+
+def eval_open_restriction(args):
+    """a restriction that the builder accepts admits no content its base rejects, whatever combination of default, base and own open content applies"""
+    import xmlschema
+    dflt, base, der, derived_model = args
+    body = {'same': '<xs:sequence><xs:element name="foo"/></xs:sequence>', 'empty': '<xs:sequence/>'}[derived_model]
+    xsd = (f'<xs:schema xmlns:xs="http://www.w3.org/2001/XMLSchema">{DOC_OC[dflt]}'
+           f'<xs:complexType name="B">{OC[base]}<xs:sequence><xs:element name="foo" minOccurs="0"/></xs:sequence></xs:complexType>'
+           f'<xs:complexType name="D"><xs:complexContent><xs:restriction base="B">{OC[der]}{body}</xs:restriction></xs:complexContent></xs:complexType>'
+           f'<xs:element name="b" type="B"/><xs:element name="d" type="D"/></xs:schema>')
+    try: s = xmlschema.XMLSchema11(xsd)
+    except xmlschema.XMLSchemaException: return None
+    bad = []
+    for w in OC_WORDS:
+        kids = ''.join({'f': '<foo/>', 'e': '<extra/>', 'x': '<x xmlns="urn:o"/>'}[c] for c in w)
+        if s.is_valid(f'<d>{kids}</d>') and not s.is_valid(f'<b>{kids}</b>'): bad.append(w)
+    return bad
+
+
+def open_jobs(): return [(d, b, r, m) for d in DOC_OC for b in OC for r in OC for m in ('same', 'empty')]
+
+
 def run(tier, seed, open_findings):
     jobs = []
     for kind, facets in (('int', INT_FACETS), ('str', STR_FACETS)):
@@ -136,10 +168,17 @@ def run(tier, seed, open_findings):
                           required='instances(derived) subset of instances(base)', baseline=listed.get('|'.join(j))))
     out.append(result('C14.typed_particles_and_wildcards', f'{len(tjobs)} (group kind, base particles in order, derived particles, processContents, class) over a lax/skip wildcard and two typed optional elements x {len(TYPED_DOCS)} contents',
                       len(tjobs), tfail, exhaustive=True, known=({TK: tknown} if tknown else {}), distinct=sum(1 for r in tres if r is not None), samples=[dict(model='all', base='AEF', derived='A', process_contents='lax')]))
+    ojobs = open_jobs(); ores = pmap(eval_open_restriction, ojobs, chunk=2)
+    ofail = [dict(case=dict(open=True, default=j[0], base=j[1], derived=j[2], derived_model=j[3]), observed=f'the restricted type accepts the children {r[:5]} (f = foo, e = extra, x = foreign) that the base type rejects',
+                  required='instances(derived) subset of instances(base)') for r, j in zip(ores, ojobs) if r]
+    out.append(result('C14.open_content_restrictions', f'{len(ojobs)} (defaultOpenContent, open content of the base, of the restriction, derived model) under XMLSchema11 x {len(OC_WORDS)} child sequences',
+                      len(ojobs), ofail, exhaustive=True, distinct=sum(1 for r in ores if r is not None), samples=[dict(default='interleave-any', base='none', derived='absent')]))
     return out
 
 
 def replay(check_name, case):
+    if case.get('open'):
+        r = eval_open_restriction((case['default'], case['base'], case['derived'], case['derived_model'])); return dict(ok=not r, observed=r, required='derived admits a subset')
     if case.get('typed'):
         r = eval_typed((case['model'], case['base'], case['derived'], case['process_contents'], case['version']))
         return dict(ok=not r, observed=r, required='derived admits a subset')
